@@ -181,7 +181,7 @@ fn check_frame(c: &Case, variant: &str, rep: &mut Report) {
         let keep: Vec<Failure> = tmp.failures.iter().filter(|f| !fresh_sigs.contains(&strip(f))).cloned().collect();
         tmp.failures.clear();
         tmp.fail_counts.clear();
-        let syms = syms(c.spec);
+        let syms = syms_shapes(c.spec);
         for f in keep {
             if c.pred.len() == 1 {
                 tmp.fail(f);
@@ -241,7 +241,7 @@ fn check_frame_one(c: &Case, variant: &str, rep: &mut Report) {
     let mut pre: Vec<Op> = Vec::new();
     let mut ctx_tag: Option<String> = None;
     if !c.pred.is_empty() {
-        let syms = syms(spec);
+        let syms = syms_shapes(spec);
         for pi in &c.pred {
             pre.extend(syms[*pi].iter().cloned());
         }
@@ -406,6 +406,69 @@ fn check_display(spec: &'static Spec, variant: &str, rep: &mut Report) {
         }
         rep.count("refresh_triggers_observed", (ca.refreshes.len() + cc.refreshes.len()) as u64);
         rep.nontrivial(hash_str(&format!("{}|combined", spec.name)));
+    }
+}
+
+/// clause 4 on a panel that is really busy and ignores commands while busy: a display call made right
+/// behind another refreshing call must still trigger exactly one refresh (a call that returns while the
+/// panel is busy loses the first commands of the next one). Judged against the same calls on an idle panel.
+fn check_display_busy(spec: &'static Spec, variant: &str, rep: &mut Report) {
+    let firsts: Vec<Vec<Op>> = vec![
+        vec![frame_op(spec, K::UpdateFrame, 0xD1), Op::new(K::Display)],
+        vec![frame_op(spec, K::UpdateAndDisplay, 0xD2)],
+        vec![Op::new(K::Clear), Op::new(K::Display)],
+        vec![Op::new(K::Display)],
+    ];
+    for first in &firsts {
+        let count = |busy: bool| -> Option<(usize, u64)> {
+            let mut rig = if busy {
+                let r = Rig::new(
+                    spec,
+                    |b| {
+                        b.busy_mode = crate::hal::BusyMode::Physical;
+                        b.chips[0].busy.default_d = 3;
+                    },
+                    None,
+                    false,
+                )
+                .ok()?;
+                r.board.borrow_mut().chips[0].drop_while_busy = true;
+                r
+            } else {
+                Rig::simple(spec)
+            };
+            for o in first {
+                if !rig.apply(o).is_ok() {
+                    return None;
+                }
+            }
+            let n0 = rig.board.borrow().chip().refreshes.len();
+            if !rig.apply(&Op::new(K::Display)).is_ok() {
+                return None;
+            }
+            let b = rig.board.borrow();
+            // a trigger that reaches an unpowered controller (its power-on command was ignored) refreshes nothing
+            let effective = b.chip().refreshes[n0..].iter().filter(|r| !spec.needs_pon || r.power == crate::model::Power::On).count();
+            Some((effective, b.chip().dropped_while_busy))
+        };
+        rep.eval(spec.name);
+        let (Some(idle), Some(busy)) = (count(false), count(true)) else {
+            continue;
+        };
+        rep.count("display_calls_on_busy_panel", 1);
+        rep.nontrivial(hash_str(&format!("dispbusy|{}|{}", spec.name, ops_short(first))));
+        if idle.0 == 1 && busy.0 != 1 {
+            let mut ops = first.clone();
+            ops.push(Op::new(K::Display));
+            rep.fail(Failure {
+                panel: spec.name.into(),
+                entry: "display_frame".into(),
+                class: "refresh-count".into(),
+                tags: vec![format!("after:{}", first.last().map(|o| o.k.name()).unwrap_or("new")), "panel-busy".into()],
+                detail: format!("display_frame right behind {} triggered {} refreshes on a panel that is busy for three polls after each busy-raising command and ignores commands while busy ({} commands ignored); 1 on an always-idle panel", ops_short(first), busy.0, busy.1),
+                case: case_json(spec, variant, &ops),
+            });
+        }
     }
 }
 
@@ -806,7 +869,7 @@ pub fn run(ctx: &Ctx) -> Report {
                 cases.push(Case { spec, entry: *e, img, img2, tag, pred: vec![], busy: false });
             }
             // contexts: the same entry point after every symbol of the alphabet (one coded image; more in thorough)
-            let syms = syms(spec);
+            let syms = syms_shapes(spec);
             let nimg = if ctx.tier_thorough { 3 } else { 1 };
             for pi in 0..syms.len() {
                 if spec.name == "epd2in13_v2" && e.k == K::SetPartialBase && syms[pi].iter().any(|o| o.k == K::SetRefresh) {
@@ -880,6 +943,7 @@ pub fn run(ctx: &Ctx) -> Report {
     for spec in panels_for(ctx) {
         check_display(spec, &ctx.variant, &mut rep);
         check_display_more(spec, &ctx.variant, &mut rep);
+        check_display_busy(spec, &ctx.variant, &mut rep);
     }
     // pixel path
     let mut pcs: Vec<PixCase> = Vec::new();
